@@ -824,7 +824,50 @@ def random_opening(rng, size, k, near_end=False):
     return ids
 
 
-def gen_specs(run, count, sizes, max_budget, transformer=2):
+def smash_openings(size):
+    """openings (ids) that put a capstone of the side to move orthogonally next to an enemy standing stone, so that
+    the capstone's one-step slide onto the wall (which flattens it) is among the moves populate tries.  Sizes >= 5."""
+    import tak
+    from tak.model import encoding
+    T = tak.MoveType
+
+    def ids(ms):
+        return [encoding.encode_move(size, tak.Move(x, y, t, None)) for x, y, t in ms]
+    n = size - 1
+    a = [(0, 0, T.PLACE_FLAT), (n, n, T.PLACE_FLAT), (1, 1, T.PLACE_CAPSTONE), (2, 1, T.PLACE_STANDING)]
+    b = a + [(3, 2, T.PLACE_STANDING), (3, 3, T.PLACE_CAPSTONE), (0, n, T.PLACE_FLAT)]
+    c = [(n, 0, T.PLACE_FLAT), (0, n, T.PLACE_FLAT), (2, 2, T.PLACE_CAPSTONE), (2, 3, T.PLACE_STANDING),
+         (1, 2, T.PLACE_FLAT), (3, 1, T.PLACE_FLAT)]                # wall above the capstone, flats around
+    d = c[:4] + [(1, 3, T.PLACE_STANDING), (1, 2, T.PLACE_CAPSTONE), (n, n, T.PLACE_FLAT)]   # black cap, walls beside/above
+    out = []
+    for seq in (a, b, c, d):
+        try:
+            start_position(size, ids(seq))
+            out.append(ids(seq))
+        except Exception:  # noqa  (a rule change made the construction illegal: the other openings still count)
+            pass
+    return out
+
+
+def smash_specs(rng, sizes, per_size):
+    specs = []
+    for size, k in zip(sizes, per_size):
+        ops = smash_openings(size)
+        for j in range(k):
+            kind = ["uniform", "pm1", "uniform", "drift", "cutoff_edge", "uniform"][j % 6]
+            noise = {"alpha": 0.3, "mix": 0.25, "seed": rng.randrange(1 << 30)} if j % 3 == 2 and kind != "cutoff_edge" else None
+            budget = rng.randint(2, 10)
+            phases = [{"path": [], "limit": budget}]
+            if j % 2:
+                phases.append({"path": [rng.randrange(1000)], "limit": rng.randint(1, 8)})
+            specs.append({"size": size, "opening": ops[j % len(ops)],
+                          "eval": {"kind": kind, "seed": rng.randrange(1 << 30), "len": "max", "dyadic": True},
+                          "sampler": {"mode": ["torch", "uniform", "skew", "last"][j % 4], "seed": rng.randrange(1 << 30)},
+                          "noise": noise, "C": 4.0, "cutoff": 1e-6, "phases": phases, "tag": "capstone-next-to-wall"})
+    return specs
+
+
+def gen_specs(run, count, sizes, max_budget, transformer=2, smash=()):
     rng = run.rng
     specs = []
     kinds = ["uniform", "random", "random", "drift", "dense", "illegal_mass", "cutoff_edge", "pm1"]
@@ -864,6 +907,8 @@ def gen_specs(run, count, sizes, max_budget, transformer=2):
                       "sampler": {"mode": "torch", "seed": rng.randrange(1 << 30)},
                       "noise": None, "C": 4.0, "cutoff": 1e-6,
                       "phases": [{"path": [], "limit": 16 + 8 * t}, {"path": [rng.randrange(1000)], "limit": 12}]})
+    if smash:
+        specs.extend(smash_specs(rng, [5, 6], smash))
     return specs
 
 
@@ -887,9 +932,9 @@ def tie_cutoff(run):
 
 def volumes(run):
     if run.quick:
-        return dict(count=150, sizes=[3, 4], max_budget=60, transformer=2)
+        return dict(count=150, sizes=[3, 4], max_budget=60, transformer=2, smash=(6, 1))
     # sizes 5 and 6 are a quarter of the searches (their trees and id tables are large)
-    return dict(count=800, sizes=[3, 4, 3, 4, 5, 3, 4, 6], max_budget=200, transformer=6)
+    return dict(count=800, sizes=[3, 4, 3, 4, 5, 3, 4, 6], max_budget=200, transformer=6, smash=(40, 12))
 
 
 # --------------------------------------------------------------------------
@@ -941,6 +986,8 @@ def correspondence(run):
         dist[f"sampler:{spec['sampler']['mode']}"] += 1
         dist["noise:on" if spec["noise"] else "noise:off"] += 1
         dist["reused" if len(spec["phases"]) > 1 else "fresh"] += 1
+        if spec.get("tag"):
+            dist["tag:" + spec["tag"]] += 1
         if key not in seen and stats["expanded"] >= 2:
             nontrivial += 1
         seen.add(key)
